@@ -153,8 +153,8 @@ def run(chk):
     hand = c04n.THEOREMS
     files = [os.path.join(vlib.LEAN, 'Libvna', 'Gen', 'Conv2.lean')] + \
         [os.path.join(vlib.LEAN, 'Libvna', 'Gen', 'Conv2Thm', fn + '.lean') for fn in fns] + \
-        [os.path.join(vlib.LEAN, 'Libvna', p) for p in ('Props/C04.lean', 'Proofs/ConvLemmas.lean', 'Spec/ConvRel.lean',
-                                                         'Model/ConvN.lean', 'Proofs/ConvNLemmas.lean')]
+        [os.path.join(vlib.LEAN, 'Libvna', p) for p in ('Props/C04.lean', 'Props/C04N.lean', 'Props/C19.lean', 'Props/C19Loop.lean', 'Props/C19Solve.lean',
+                                                         'Proofs/ConvLemmas.lean', 'Spec/ConvRel.lean', 'Model/ConvN.lean', 'Model/LinAlg.lean')]
     good_mods = [fn for fn in fns if 'error' not in meta[fn] and ('Libvna.Gen.Conv2Thm.' + fn) not in failed]
     imports = ['Libvna.Gen.Conv2Thm.' + fn for fn in good_mods]
     if 'Libvna.Props.C04' not in failed:
